@@ -334,6 +334,7 @@ def _load_dir(d, files, case, again=True, write=True):
         wmi_file = np.load(d / 'whitening_mat_inv.npy')
         wm = np.asarray(_arr_of(out['wm']), dtype=float)
         out['created_wmi_ok'] = bool(wmi_file.shape == wm.shape and np.allclose(wm @ wmi_file, np.eye(len(wm))))
+        out['created_wmi'] = _cells(wmi_file)
     if not again:
         return out
     # a second model opened on the directory the first one left behind shows the same dataset
@@ -545,6 +546,15 @@ def judge(case, impl_res, ans):
             return 'SPEC: channel positions that are not all distinct were not replaced by the linear layout: %s' % str(got)[:200]
     if m['wmi'] is not None and ok['wmi'] != m['wmi']:
         return 'SPEC: inverse whitening matrix differs from the stored file'
+    # no whitening matrix and no stored inverse: the model's inverse WITH its default (`fv.wmi`) and the file the model
+    # writes are `inv(eye(nc))` = the identity, exactly (`C04.load`: the written default)
+    if m.get('wmi_of_identity') is not None:
+        if ok['wmi'] != m['wmi_of_identity']:
+            return 'CORR: inverse whitening matrix of a dataset without whitening matrix %s, model %s' % (
+                str(ok['wmi'])[:200], str(m['wmi_of_identity'])[:200])
+        if ok.get('created_wmi') != m['wmi_written']:
+            return 'CORR: whitening_mat_inv.npy written for a dataset without whitening matrix %s, model %s' % (
+                str(ok.get('created_wmi'))[:200], str(m['wmi_written'])[:200])
     if not ok['wm_wmi_identity'] and (('whitening_mat.npy' in case['files']) or ('whitening_mat_inv.npy' not in case['files'])):
         return 'SPEC: wmi is not the inverse of wm'
     # feature tables: stored arrays with the principal-component axes exchanged, memory-mapped (not scrubbed)
